@@ -83,6 +83,7 @@ func vfC01_Request() {
 	kind := vfCase("kind")
 	seg := vfCase("seg") == 1
 	urspLen := vfCase("ursp")
+	eih := vfCase("eih")
 	psk := vfBytes("psk", keyLen)
 	ursp := vfBytes("ursp", urspLen)
 	target := vfTarget(kind)
@@ -90,7 +91,13 @@ func vfC01_Request() {
 	vfAssume(L >= 0 && L <= 140000)
 	payload := vfBytes("payload", L)
 
-	ccfg, err := NewClientCipherConfig(psk, nil, false)
+	// eih = 1: the client is one user (uPSK = psk) of a multi-user server (iPSK); the request
+	// carries one identity header
+	var iPSKs [][]byte
+	if eih == 1 {
+		iPSKs = [][]byte{vfBytes("ipsk", keyLen)}
+	}
+	ccfg, err := NewClientCipherConfig(psk, iPSKs, false)
 	vfAssert(err == nil, "client cipher config")
 	d := &vfDialer{}
 	client := (&StreamClientConfig{Name: "c", InnerClient: d, AllowSegmentedFixedLengthHeader: seg, CipherConfig: ccfg, UnsafeRequestStreamPrefix: ursp}).NewStreamClient()
@@ -99,9 +106,19 @@ func vfC01_Request() {
 	vfAssert(d.dials == 1, "inner client dialed exactly once")
 	wire := d.c.out
 
-	ucfg, err := NewUserCipherConfig(psk, false)
-	vfAssert(err == nil, "server cipher config")
-	server := (&StreamServerConfig{AllowSegmentedFixedLengthHeader: seg, UserCipherConfig: ucfg, UnsafeRequestStreamPrefix: ursp}).NewStreamServer()
+	var server *StreamServer
+	if eih == 1 {
+		icfg, err := NewServerIdentityCipherConfig(iPSKs[0], false)
+		vfAssert(err == nil, "identity cipher config")
+		server = (&StreamServerConfig{AllowSegmentedFixedLengthHeader: seg, IdentityCipherConfig: icfg, UnsafeRequestStreamPrefix: ursp}).NewStreamServer()
+		ucfg, err := NewServerUserCipherConfig("alice", psk, false)
+		vfAssert(err == nil, "user cipher config")
+		server.ReplaceUserLookupMap(UserLookupMap{PSKHash(psk): ucfg})
+	} else {
+		ucfg, err := NewUserCipherConfig(psk, false)
+		vfAssert(err == nil, "server cipher config")
+		server = (&StreamServerConfig{AllowSegmentedFixedLengthHeader: seg, UserCipherConfig: ucfg, UnsafeRequestStreamPrefix: ursp}).NewStreamServer()
+	}
 	sc := &vfConn{}
 	sc.data = wire
 	sc.tag = "S"
@@ -111,7 +128,11 @@ func vfC01_Request() {
 	req, err := server.HandleStream(sc, zap.NewNop())
 	vfAssert(err == nil, "genuine request accepted")
 	vfAssert(vfSameAddr(req.Addr, target), "server observes the dialed target")
-	vfAssert(req.Username == "", "single-user server reports no user name")
+	if eih == 1 {
+		vfAssert(req.Username == "alice", "the server reports the owning user's name")
+	} else {
+		vfAssert(req.Username == "", "single-user server reports no user name")
+	}
 	addrLen := 7
 	switch kind {
 	case 1:
